@@ -10,7 +10,7 @@ from . import _c01_pipeline as P
 ID = "C02"
 LEVEL = "exploration"
 PATTERNS = ["completion", "error", "early", "inner_error", "pending_aux", "nested_outlive", "random"]
-RULE = ("seeded random pipelines (depth 1-4 from the %d-entry operator catalog without subscribe_on/delay_subscription, "
+RULE = ("seeded random pipelines (depth 1-4 from the %d-entry operator catalog without subscribe_on, "
         "1-3 conforming probe sources cold/hot/synchronous/from_iterable) built for a termination pattern: completion of "
         "the main source, error of the main source, early termination (take/first/element_at/take_while/amb/take_until/"
         "timeout/... forced into the pipeline over sources that never end), an inner/second source that errors while its "
@@ -23,15 +23,15 @@ RULE = ("seeded random pipelines (depth 1-4 from the %d-entry operator catalog w
         "when it was closed; distinct = digest of (sources, pipeline with arguments)" % len(CATALOG))
 ASSUMPTIONS = ["TestScheduler / HistoricalScheduler are the clock (C28)", "probe sources are harness code and conforming here",
                "the run is cut at virtual time 600; cases whose top subscriber has not terminated by then are not judged"]
-CASES = {"quick": 1920, "thorough": 150000}
+CASES = {"quick": 3200, "thorough": 800000}
 REQUIRED = {"set:ops": len(CATALOG) - 8,
-            "checked": {"quick": 1000, "thorough": 80000},
-            "pending_subscriptions_closed": {"quick": 800, "thorough": 60000},
-            "checked_early": {"quick": 100, "thorough": 8000},
-            "checked_inner_error": {"quick": 60, "thorough": 5000},
-            "checked_pending_aux": {"quick": 100, "thorough": 8000},
-            "checked_nested_outlive": {"quick": 40, "thorough": 3000},
-            "windows_outliving_top": {"quick": 40, "thorough": 3000}}
+            "checked": {"quick": 1000, "thorough": 400000},
+            "pending_subscriptions_closed": {"quick": 800, "thorough": 300000},
+            "checked_early": {"quick": 100, "thorough": 40000},
+            "checked_inner_error": {"quick": 60, "thorough": 25000},
+            "checked_pending_aux": {"quick": 100, "thorough": 40000},
+            "checked_nested_outlive": {"quick": 40, "thorough": 15000},
+            "windows_outliving_top": {"quick": 40, "thorough": 15000}}
 EXCLUDE = ("sub_on",)
 
 
